@@ -900,10 +900,15 @@ func dominatesF(a, b ssa.Instruction, depth int) bool {
 	for _, sites := range flagGuards(b) {
 		all := true
 		for _, s := range sites {
-			if s != a && !dominatesF(a, s, depth+1) {
-				all = false
-				break
+			if s == a || dominatesF(a, s, depth+1) {
+				continue
 			}
+			// the flag is set first and a follows on every path from there to b (`found = true; x, err := a(); if err … return`)
+			if ReachAvoiding(a.Parent(), s, func(i ssa.Instruction) bool { return i == b }, func(i ssa.Instruction) bool { return i == a }) == nil {
+				continue
+			}
+			all = false
+			break
 		}
 		if all {
 			return true
